@@ -1,11 +1,11 @@
 #!/bin/sh
-# tools/trymut.sh <patch.diff> <property id>... — apply a patch to a scratch worktree of /repo's HEAD
+# tools/trymut.sh <patch.diff> <property id>... — apply a patch to a scratch worktree of /repo's HEAD (or $MUT_BASE)
 # (outside /repo and /verif), run the given checks against it, remove the worktree.
 set -u
 patch=$(realpath "$1"); shift
 wt=$(mktemp -d /tmp/wt-mut-XXXXXX)
 rmdir "$wt"
-git -C /repo worktree add -q --detach "$wt" HEAD || exit 2
+git -C /repo worktree add -q --detach "$wt" "${MUT_BASE:-HEAD}" || exit 2
 VERIF_ALT_OUT=$(mktemp -d /tmp/verif-alt-XXXXXX); export VERIF_ALT_OUT  # private: several trials may run side by side
 trap 'git -C /repo worktree remove --force "$wt" >/dev/null 2>&1; rm -rf "$VERIF_ALT_OUT"' EXIT
 if ! git -C "$wt" apply "$patch"; then echo "patch does not apply"; exit 2; fi
